@@ -1122,9 +1122,12 @@ fn drive<C: Comp>(
                                 Ok(None) => writeln!(out, "{} => BAD not cloneable", line).unwrap(),
                                 Ok(Some(c)) => {
                                     let _ = take_drops();
+                                    // `geo=`: configuration the state dump does not show (sketch seeds and masks, doorkeeper
+                                    // geometry) — a clone must carry the original's (oracle of C16; not compared with the model)
+                                    let geo = c.env().first().map(|e| format!(" | geo={}", e.replace(' ', ","))).unwrap_or_default();
                                     match c.sizes() {
-                                        Some(sz) => writeln!(out, "{} => {} | sz={}", line, c.dump(), sz).unwrap(),
-                                        None => writeln!(out, "{} => {}", line, c.dump()).unwrap(),
+                                        Some(sz) => writeln!(out, "{} => {} | sz={}{}", line, c.dump(), sz, geo).unwrap(),
+                                        None => writeln!(out, "{} => {}{}", line, c.dump(), geo).unwrap(),
                                     }
                                     if let Some(old) = alt.take() {
                                         drop(old);
@@ -1157,9 +1160,10 @@ fn drive<C: Comp>(
                                         alt = Some(c);
                                     }
                                     let c = alt.as_ref().unwrap();
+                                    let geo = c.env().first().map(|e| format!(" | geo={}", e.replace(' ', ","))).unwrap_or_default();
                                     match c.sizes() {
-                                        Some(sz) => writeln!(out, "{} => {} | sz={}", line, c.dump(), sz).unwrap(),
-                                        None => writeln!(out, "{} => {}", line, c.dump()).unwrap(),
+                                        Some(sz) => writeln!(out, "{} => {} | sz={}{}", line, c.dump(), sz, geo).unwrap(),
+                                        None => writeln!(out, "{} => {}{}", line, c.dump(), geo).unwrap(),
                                     }
                                 }
                             }
